@@ -18,6 +18,7 @@ search: the property itself evaluated on the implementation's outputs: the
 import json
 import os
 import subprocess
+import sys
 
 import vv
 
@@ -369,6 +370,21 @@ def shrink(exe, T, S, ops, key):
 
 
 def run(ck):
+    # regenerate coq/Gen/SmallVecOps.v from the current source (the part of the
+    # model that is interpreted: insert's range operations; and the statement
+    # lists of all member definitions)
+    snap, _ = vv.snapshot()
+    sys.path.insert(0, os.path.join(vv.VERIF, "translate"))
+    import smallvec_ops
+    text, problems = smallvec_ops.generate(snap)
+    if problems:
+        ck.tie = "correspondence"
+        ck.notes.append("translator: " + "; ".join(problems)[:600] +
+                        " -- checked-in Gen/SmallVecOps.v kept as hand-written model, tie = correspondence only")
+    else:
+        with vv.Lock("coq"):
+            vv.write_if_changed(os.path.join(vv.COQ, "Gen", "SmallVecOps.v"), text)
+        ck.tie = "regenerated+correspondence"
     res = vv.prove("Properties_C20", set())
     ck.add_proof(res)
     # the findings on the pinned tree (..._refuted witnesses on the literal model)
@@ -376,9 +392,11 @@ def run(ck):
     if not ok:
         err = vv.coq_first_error(out) or {}
         ck.add_unshown("proof", err.get("lemma"), "Props/Refuted_C20.v no longer builds: %s" % err.get("message", out[-300:]))
-    ck.trusted += ["coq/SmallVec/SmallVecDefs.v is a hand-written model of small_vector.tcc (cells Alive v | Alive "
-                   "indeterminate | Raw; range loops as folds of the per-cell action, moves inside one block as "
-                   "read-all-then-write-all); tied to the source by the correspondence only",
+    ck.trusted += ["translate/smallvec_ops.py (small_vector.tcc -> Gen/SmallVecOps.v: insert's guards / branch condition / "
+                   "range operations, interpreted by the model; normalised statement lists of all member definitions, "
+                   "compared with SmallVec/SmallVecModelled.v by C20_source_as_modelled)",
+                   "coq/SmallVec/SmallVecDefs.v: hand-written methods (cells Alive v | Alive indeterminate | Raw; "
+                   "element-wise loops in the direction of the standard algorithms), tied by the correspondence",
                    "extraction: ExtrOcamlBasic only; ocaml/smallvec_driver.ml + zutil.ml",
                    "harness/h_smallvec.cc (Tracked lifetime registry, lock-step std::vector mirror), g++ 12 "
                    "ASan/UBSan/LSan as detectors"]
